@@ -65,6 +65,8 @@ type Path struct {
 
 type PathResult struct {
 	Status     string // "ok", "infeasible", "unsupported", "budget", "deadlock", "panic", "error"
+	RaceAccesses, RaceSyncOps int64
+	RaceGoroutines  int
 	BudgetViolation bool // status "budget" already turned into a "terminates" violation candidate
 	Msg        string
 	Violations []Violation
@@ -447,6 +449,8 @@ func (p *Path) recordViolation(id, msg string) {
 // exploration driver
 
 type Stats struct {
+	RaceAccesses, RaceSyncOps int64
+	RaceGoroutines            int
 	Paths       int
 	ByStatus    map[string]int
 	Steps       int64
@@ -600,6 +604,11 @@ func Explore(prog *ssa.Program, fn *ssa.Function, opts ExploreOpts) (*Stats, err
 				st.Paths++
 				st.ByStatus[res.Status]++
 				st.Steps += int64(res.Steps)
+				st.RaceAccesses += res.RaceAccesses
+				st.RaceSyncOps += res.RaceSyncOps
+				if res.RaceGoroutines > st.RaceGoroutines {
+					st.RaceGoroutines = res.RaceGoroutines
+				}
 				st.Discharged += res.Discharged
 				if res.Decisions > st.MaxDecisions {
 					st.MaxDecisions = res.Decisions
@@ -767,6 +776,9 @@ func (it *Interp) RunPath(fn *ssa.Function, prefix []int64) (res *PathResult) {
 	res.NewWork = p.newWork
 	res.Nontrivial = p.nontrivial
 	res.Steps = it.steps
+	if it.race != nil {
+		res.RaceAccesses, res.RaceSyncOps, res.RaceGoroutines = it.race.accesses, it.race.syncOps, it.race.maxGoroutines
+	}
 	res.Decisions = len(p.taken)
 	return res
 }
